@@ -528,7 +528,11 @@ end Qryn.C13
 /-! ## the Pyroscope read statements (`Prof/Planners.lean`), tied byte for byte to `prof.PlanMergeProfiles / PlanMergeTraces /
     PlanSelectSeries / PlanSeries / PlanLabelNames / PlanLabelValues` by the `model-prof-plans` stream.
     `fq` / `mq` are what `getMatchers` makes of the selector list the fingerprint planner resp. the planner itself was given
-    (`Prof.plan`, C17); the theorems hold for every selector list. -/
+    (`Prof.plan gre`, C17: global conditions, key/value conditions and the `kvRequired` mask — after `fix: a Pyroscope selector
+    that accepts the empty value …` a key/value selector that accepts "" is asked inverted with its bit clear, the `or(…)` row
+    filter is written only when some bit is required, HAVING compares with the mask; `gre` = Go's `regexp` as `acceptsEmpty`
+    asks it). The fingerprint sub-select `selectorSel c fq` reads all of `fq`; the theorems hold for every selector list and
+    every `gre` — whichever selectors are inverted and whether or not the row filter is there, the two date bounds are. -/
 namespace Qryn.C13
 open Qryn Qryn.Sql Qryn.Confine Qryn.Prof
 
@@ -537,16 +541,16 @@ open Qryn Qryn.Sql Qryn.Confine Qryn.Prof
     `date <= date(To)` and no other comparison on the date column. Slack 0, both table layouts, any limit. -/
 theorem prof_merge_profiles_confined (gre : Bytes → Bytes → Bool) (cfg : Cfg) (c : PCtx) (h : ProfCfg cfg c) (fpSels mainSels : List Selector) (fq mq : PQuery)
     (hf : Prof.plan gre "" [] [] fpSels = some fq) (_hm : Prof.plan gre "" [] [] mainSels = some mq) :
-    confined cfg (winProf c) (mergeProfiles c fq.globals fq.kvs mq.globals) = true :=
-  (mergeProfiles_good cfg c h _ _ _ (plan_noDate _ _ _ _ _ _ hf)).confined
+    confined cfg (winProf c) (mergeProfiles c fq mq.globals) = true :=
+  (mergeProfiles_good cfg c h _ _ (plan_noDate _ _ _ _ _ _ hf)).confined
 
 /-- **prof_merge_traces_confined.** `MergeRawPlanner` → `MergeJoinedPlanner` → `MergeAggregatedPlanner`
     (SelectMergeStacktraces): the only table read is `profiles` in `raw`, with `timestamp_ns >= From` and `< To`, and the
     `fp` sub-query as above; `pre_joined`, `joined` and the final aggregate read WITH entries only. -/
 theorem prof_merge_traces_confined (gre : Bytes → Bytes → Bool) (cfg : Cfg) (c : PCtx) (h : ProfCfg cfg c) (typeUnit : Bytes) (fpSels mainSels : List Selector)
     (fq mq : PQuery) (hf : Prof.plan gre "" [] [] fpSels = some fq) (_hm : Prof.plan gre "" [] [] mainSels = some mq) :
-    confined cfg (winProf c) (mergeTraces c typeUnit fq.globals fq.kvs mq.globals) = true :=
-  (mergeTraces_good cfg c h typeUnit _ _ _ (plan_noDate _ _ _ _ _ _ hf)).confined
+    confined cfg (winProf c) (mergeTraces c typeUnit fq mq.globals) = true :=
+  (mergeTraces_good cfg c h typeUnit _ _ (plan_noDate _ _ _ _ _ _ hf)).confined
 
 /-- **prof_select_series_confined.** `SelectSeriesPlanner` over `GetLabelsPlanner` (SelectSeries; any group-by list,
     aggregation, step): `profiles` with `p.timestamp_ns >= From`, `<= To`; `profiles_series` (labels) and
@@ -554,15 +558,15 @@ theorem prof_merge_traces_confined (gre : Bytes → Bytes → Bool) (cfg : Cfg) 
 theorem prof_select_series_confined (gre : Bytes → Bytes → Bool) (cfg : Cfg) (c : PCtx) (h : ProfCfg cfg c) (typeUnit : Bytes) (avg : Bool) (step : Int)
     (groupBy : List Bytes) (fpSels mainSels : List Selector) (fq mq : PQuery)
     (hf : Prof.plan gre "" [] [] fpSels = some fq) (hm : Prof.plan gre "" [] [] mainSels = some mq) :
-    confined cfg (winProf c) (selectSeries c typeUnit avg step (getLabels c groupBy fq.globals fq.kvs mq.globals) mq.globals) = true :=
-  (selectSeries_good cfg c h typeUnit avg step groupBy _ _ _ (plan_noDate _ _ _ _ _ _ hf) (plan_noDate _ _ _ _ _ _ hm)).confined
+    confined cfg (winProf c) (selectSeries c typeUnit avg step (getLabels c groupBy fq mq.globals) mq.globals) = true :=
+  (selectSeries_good cfg c h typeUnit avg step groupBy _ _ (plan_noDate _ _ _ _ _ _ hf) (plan_noDate _ _ _ _ _ _ hm)).confined
 
 /-- **prof_series_confined.** `PlanSeries` for one selector set (with or without label names; without any selector the
     whole `profiles_series` of the window's days): the two date bounds on every scan. -/
 theorem prof_series_confined (gre : Bytes → Bytes → Bool) (cfg : Cfg) (c : PCtx) (h : ProfCfg cfg c) (labels : List Bytes) :
     confined cfg (winProf c) (Prof.planSeries c labels none) = true ∧
     ∀ (sels : List Selector) (q : PQuery), Prof.plan gre "" [] [] sels = some q →
-      confined cfg (winProf c) (Prof.planSeries c labels (some (q.globals, q.kvs))) = true := by
+      confined cfg (winProf c) (Prof.planSeries c labels (some q)) = true := by
   refine ⟨(profSeries_good cfg c h labels none (by intro p hp; cases hp)).confined, fun sels q hq => ?_⟩
   apply GoodM.confined
   apply profSeries_good cfg c h
@@ -576,7 +580,7 @@ theorem prof_series_confined (gre : Bytes → Bytes → Bool) (cfg : Cfg) (c : P
     the index with the two date bounds and `fingerprint IN fp`. -/
 theorem prof_labels_union_confined (gre : Bytes → Bytes → Bool) (cfg : Cfg) (c : PCtx) (h : ProfCfg cfg c) (col : String) (label : Option Bytes)
     (scripts : List (List Selector × PQuery)) (hq : ∀ p ∈ scripts, Prof.plan gre "" [] [] p.1 = some p.2) :
-    unionConfined cfg (winProf c) (labelsUnion c col label (scripts.map (fun p => (p.2.globals, p.2.kvs)))) = true := by
+    unionConfined cfg (winProf c) (labelsUnion c col label (scripts.map (·.2))) = true := by
   apply labelsUnion_confined cfg c h
   intro p hp g hg
   obtain ⟨sq, hsq, rfl⟩ := List.mem_map.mp hp
@@ -587,7 +591,7 @@ theorem prof_labels_union_confined (gre : Bytes → Bytes → Bool) (cfg : Cfg) 
     is the first set's selector statement, the selects over them read WITH entries only. -/
 theorem prof_series_union_confined (gre : Bytes → Bytes → Bool) (cfg : Cfg) (c : PCtx) (h : ProfCfg cfg c) (labels : List Bytes)
     (scripts : List (List Selector × PQuery)) (hq : ∀ p ∈ scripts, Prof.plan gre "" [] [] p.1 = some p.2) :
-    unionConfined cfg (winProf c) (seriesUnion c labels (scripts.map (fun p => (p.2.globals, p.2.kvs)))) = true := by
+    unionConfined cfg (winProf c) (seriesUnion c labels (scripts.map (·.2))) = true := by
   apply seriesUnion_confined cfg c h
   intro p hp g hg
   obtain ⟨sq, hsq, rfl⟩ := List.mem_map.mp hp
@@ -597,8 +601,20 @@ theorem prof_series_union_confined (gre : Bytes → Bytes → Bool) (cfg : Cfg) 
     those of the merge-profiles statement (`prof_merge_profiles_confined`); the two bracketed sub-selects in the column list
     read the WITH entries `pre_profile_size` and `fp`. -/
 theorem prof_analyze_query_confined (gre : Bytes → Bytes → Bool) (cfg : Cfg) (c : PCtx) (h : ProfCfg cfg c) (sels : List Selector) (q : PQuery)
-    (hq : Prof.plan gre "" [] [] sels = some q) : confined cfg (winProf c) (analyzeQuery c q.globals q.kvs) = true :=
-  (analyzeQuery_good cfg c h _ _ (plan_noDate _ _ _ _ _ _ hq)).confined
+    (hq : Prof.plan gre "" [] [] sels = some q) : confined cfg (winProf c) (analyzeQuery c q) = true :=
+  (analyzeQuery_good cfg c h _ (plan_noDate _ _ _ _ _ _ hq)).confined
+
+/-- non-vacuity on the two shapes of the fingerprint sub-select: `{region!="x", job="a"}` — `region!="x"` accepts "" and is asked
+    inverted, bit 0 clear, bit 1 required: the `or(…)` row filter is a third conjunct — and `{region!="x"}` alone: no bit
+    required, WHERE holds the two date bounds only, HAVING (`== 0`) is still there. Both are instances of the theorems above. -/
+example :
+    let c0 : PCtx := ⟨0, 1000000000, 0, "profiles_series_gin", "g", "s", "sd", "p"⟩
+    (Prof.plan (fun _ _ => false) "" [] [] [⟨[114, 101, 103, 105, 111, 110], .ne, [120]⟩, ⟨[106, 111, 98], .eq, [97]⟩]).map (fun q =>
+      (q.kvRequired, q.useOr, (conjuncts (whereOf (selectorSel c0 q))).length, (selectorSel c0 q).having.isSome)) =
+      some ([false, true], true, 3, true) ∧
+    (Prof.plan (fun _ _ => false) "" [] [] [⟨[114, 101, 103, 105, 111, 110], .ne, [120]⟩]).map (fun q =>
+      (q.kvRequired, q.useOr, (conjuncts (whereOf (selectorSel c0 q))).length, (selectorSel c0 q).having.isSome)) =
+      some ([false], false, 2, true) := by decide
 
 /-- **prof_labels_confined.** LabelNames / LabelValues without a selector: `profiles_series_gin` with the two date bounds. -/
 theorem prof_labels_confined (cfg : Cfg) (c : PCtx) (h : ProfCfg cfg c) (col : String) (label : Option Bytes) :
